@@ -142,6 +142,10 @@ def _binary_programs():
     out.append(("add_parts_broadcast", lambda t: _parts(t["L"], [0, 1]).a + _parts(t["L"], [1]).a.sum(), False, "partitions"))
     out.append(("parts_of_elemwise", lambda t: _parts(t["L"].assign(z=t["L"].a + 1) + 1, [2, 0]), False, "partitions"))
     out.append(("parts_of_shuffle", lambda t: _parts(_shuf(t["L"]), [1]) , True, "partitions"))
+    # a selection above an operation that reads neighbouring partitions / all earlier partitions (defect D82)
+    out.append(("parts_of_shift", lambda t: _parts(t["L"].shift(1), [1, 2]), False, "partitions"))
+    out.append(("parts_of_diff_rev", lambda t: _parts(t["L"][["a", "b"]].diff(1), [2, 1]), False, "partitions"))
+    out.append(("parts_of_cumsum", lambda t: _parts(t["L"][["a", "b"]].cumsum(), [1]), False, "partitions"))
     out.append(("two_shifts", lambda t: t["L"].a.shift(1) + t["L"].a.shift(2), False, "overlap"))
     out.append(("two_diffs_frame", lambda t: t["L"][["a", "b"]].diff(1) + t["L"][["a", "b"]].shift(1), False, "overlap"))
     # an in-place style update whose input partition has a second consumer in the same graph
